@@ -45,8 +45,17 @@ func getNestedFieldSimple
   props C05 C16 C20
   option safety
   modifies *
+  observe val := getFieldValue
+  observe found := getFieldValue#1
+  atreturn an-empty-path-names-nothing: fieldPath == "" ==> !result1 && result0 == nil
+  loop 1 step each-segment-is-looked-up-in-the-value-the-previous-segment-gave: $found ==> current == $val
+  before getFieldValue each-segment-is-looked-up-in-the-value-reached-so-far: $arg0 == current && $arg1 == field
+  atreturn a-segment-that-is-absent-makes-the-whole-path-absent: !result1 ==> result0 == nil
+
+pred firstSep(p) := ite(strings.Index(p, ".") >= 0 && (strings.Index(p, "[") < 0 || strings.Index(p, ".") < strings.Index(p, "[")), strings.Index(p, "."), strings.Index(p, "["))
 
 func ExtractTopLevelField
   props C05 C16 C20
   option safety
+  ensures the-top-level-column-is-the-text-before-the-first-dot-or-bracket-the-whole-path-when-there-is-none-or-it-comes-first: result == ite(fieldPath != "" && firstSep(fieldPath) > 0, fieldPath[:firstSep(fieldPath)], fieldPath)
 @*/
